@@ -11,6 +11,7 @@ All statements are proved by induction over the step list / the handler list / t
 import GeckoModel.Proofs.ThreadedHandshake
 import GeckoModel.Proofs.Coop
 import GeckoModel.Generated.Skeletons
+import GeckoModel.Proofs.Cancel
 
 namespace GeckoModel.C20
 open GeckoModel GeckoModel.Generated GeckoModel.Threaded
@@ -838,5 +839,35 @@ theorem every_answer_restarts_the_clock :
     everyNormalEndDid (fun a => a.kind == .call && a.name == "self._reset_timeout")
       sk_driver_udp_protocol_handler__GeckoUdpProtocolHandler_async_handled = true ∧
     actions .brT sk_driver_udp_protocol_handler__GeckoUdpProtocolHandler__reset_timeout = [] := by decide +kernel
+
+/-! ### code that is not the engine's own never stops the engine -/
+
+/-- where the engine runs code it does not own: a handler's `send_bytes` property and the OS socket on the send side, the OS socket
+and the whole dispatch (handler `can_handle` / `handle` / `handled`) on the receive side, every handler's `loop`, the sub-class hook -/
+def foreignSend (e : Coop.Ev) : Bool := isReadOf "send_bytes" e || isCallOf "self._socket.sendto" e
+def foreignRecv (e : Coop.Ev) : Bool := isCallOf "self._socket.recvfrom" e || isCallOf "self.dispatch_recevied_data" e
+def foreignDispatch (e : Coop.Ev) : Bool := isCallOf "receive_handler.handle" e || isCallOf "receive_handler.handled" e
+def foreignLoop (e : Coop.Ev) : Bool := isCallOf "handler.loop" e || isCallOf "self._loop_func" e
+
+/-- **a handler exception never stops the engine** (over the regenerated skeletons of the engine's four steps, with Python's rule for
+which handler gets an exception): whatever a handler's code or the OS socket raises - while its bytes are being built, while it is
+sent, received, dispatched, handled, or in its timeout turn - some `except Exception` of the step itself swallows it and the step
+ends normally; so `_thread_func`, whose own turn contains `handler.loop` and the hook the same way, goes on to its next turn -/
+theorem foreign_code_never_stops_the_engine :
+    survivesEveryException foreignSend sk_driver_udp_socket__GeckoUdpSocket__process_send_requests = true ∧
+    survivesEveryException foreignRecv sk_driver_udp_socket__GeckoUdpSocket__process_received_data = true ∧
+    survivesEveryException foreignDispatch sk_driver_udp_socket__GeckoUdpSocket_dispatch_recevied_data = true ∧
+    survivesEveryException foreignLoop sk_driver_udp_socket__GeckoUdpSocket__thread_func = true ∧
+    (actions .read sk_driver_udp_socket__GeckoUdpSocket__process_send_requests).contains "send_bytes" = true := by decide +kernel
+
+/-- the same semantically, for the send step: an exception thrown where the handler's bytes are built or sent does not leave it -/
+theorem send_step_contains_handler_exceptions {o : Coop.Out}
+    (h : Thrown catchesAny foreignSend sk_driver_udp_socket__GeckoUdpSocket__process_send_requests o) : o ≠ .exc :=
+  exception_is_contained foreign_code_never_stops_the_engine.1 h
+
+/-- non-vacuity: building the bytes just above the `try` is a place where a handler's exception leaves the step -/
+example : survivesEveryException foreignSend
+    (.seq (.ev (.act ⟨.read, "send_bytes"⟩)) (.tryExc (.ev (.act ⟨.call, "self._socket.sendto"⟩)) (.ev (.act ⟨.exc, "Exception"⟩)))) = false := by
+  decide +kernel
 
 end GeckoModel.C20.Locking
